@@ -183,6 +183,7 @@ def check_idle_end(ctx, step, cmds) -> None:
 
 class C16(Profile):
     id = 'C16'
+    BACKENDS = ('dict', 'dict', 'dict', 'maildir')
     level = 'exploration'
     quick_budget_s = 40.0
     thorough_budget_s = 420.0
@@ -200,7 +201,9 @@ class C16(Profile):
     components = C01.components
 
     def gen(self, rng, tier):
-        return gen_idle_case(rng, tier)
+        from .common import backends, finish_cfg
+        return finish_cfg(gen_idle_case(
+            rng, tier, backends=backends(self.BACKENDS)), rng)
 
     def run(self, case, trace=False):
         def after(ctx, i, step, cmds):
